@@ -386,7 +386,10 @@ pub assume_specification[u32::next_power_of_two](x: u32) -> (r: u32)
         let y = child_idx as int;
         assert(!inv.contains_key(y)) by { if inv.contains_key(y) { assert(h_used_index(h_before, y)); } }
         assert(y >= 2) by { if y == 0 || y == 1 { assert(h_used_index(h_before, y)); } }
-        lemma_cwb_step(*nfa, states_before, self.states@, tb, map_before, state_id_map@, inv, owner, done, sid, base@, self.block_len, s1, j0);
+        // guarded: if the placement is not the expected one the loop invariant (not this hint) is what fails
+        if cwb_step_rel(states_before, self.states@, map_before, state_id_map@, inv, sid, base@, s1, j0) {
+            lemma_cwb_step(*nfa, states_before, self.states@, tb, map_before, state_id_map@, inv, owner, done, sid, base@, self.block_len, s1, j0);
+        }
         lemma_cwb_facts(*nfa, states_before, tb, map_before, inv, owner, done, sid, base@, s1, j0);
         assert forall|z: int| #[trigger] inv.insert(y, child_id as int).contains_key(z) && h_active(helper, z) implies h_used_index(helper, z) by {
             if z != y { assert(inv.contains_key(z)); assert(h_active(h_before, z)); }
